@@ -293,8 +293,8 @@ func BuildGenesis(spec *Spec) (*World, error) {
 			MinProposalDeposit:             q(spec.GovMinDeposit),
 			VotingPeriod:                   beacon.EpochTime(spec.GovVotingPeriod),
 			StakeThreshold:                 spec.GovStakeThresh,
-			UpgradeMinEpochDiff:            beacon.EpochTime(spec.GovVotingPeriod + 2),
-			UpgradeCancelMinEpochDiff:      beacon.EpochTime(spec.GovVotingPeriod + 2),
+			UpgradeMinEpochDiff:            beacon.EpochTime(spec.GovVotingPeriod + 1),
+			UpgradeCancelMinEpochDiff:      beacon.EpochTime(spec.GovVotingPeriod + 1),
 			EnableChangeParametersProposal: true,
 			AllowVoteWithoutEntity:         true,
 			AllowProposalMetadata:          true,
